@@ -52,7 +52,12 @@ pub fn spec(args: &[String]) -> i32 {
         let mut rule = g.rule(if case % 3 == 0 { Profile::Basic } else { Profile::Tame });
         // the generator writes alphas as Greek or Latin capitals; group letters are also capitals, so only rename Greek ones
         if let Some(i) = rule.find(";;") { rule.truncate(i); }
-        let word = if case % 4 == 0 { g.small_word() } else { g.word() };
+        // every tenth word carries a click written with the optional caret between its halves (`ŋ^ǃ`, `ǃ^ɢ`), so that the
+        // input aliases `! G N X` are also tried in the look-ahead after the caret
+        let word = if case % 10 == 7 {
+            let fronts = ["ŋ^ǃ", "ŋ^ǀ", "ɴ^ǁ", "ŋ^ǂ", "ɴ^ǃ", "ǃ^ɢ", "ǂ^ɴ", "ǁ^χ", "ǃ^q", "ǀ^ɢ", "ŋǃ", "ǃɢ", "ɴ^ʘ"];
+            format!("{}{}{}", if g.rng.chance(1, 2) { g.small_word() + "." } else { String::new() }, fronts[g.rng.below(fronts.len())], ["a", "i", "u.ta", "aː"][g.rng.below(4)])
+        } else if case % 4 == 0 { g.small_word() } else { g.word() };
         let base = run1(&rule, &word);
         st.inc("c13.cases"); st.inc(&format!("c13.base.{}", base.class().split(':').next().unwrap_or("?")));
         if matches!(base, Out::Panic(_) | Out::Hang(_)) { continue }
